@@ -22,6 +22,7 @@ import (
 	"github.com/algorand/go-algorand/config"
 	"github.com/algorand/go-algorand/crypto"
 	"github.com/algorand/go-algorand/data/basics"
+	"github.com/algorand/go-algorand/data/bookkeeping"
 	"github.com/algorand/go-algorand/data/transactions"
 	"github.com/algorand/go-algorand/data/txntest"
 	"github.com/algorand/go-algorand/ledger/ledgercore"
@@ -120,14 +121,137 @@ func c15StateDiff(a, b *hlModel, r basics.Round) []string {
 	return out
 }
 
+// c15EqualStates: the label must be a function of the state. One chain creates a ZERO-LENGTH box
+// in round r and deletes it in round r+1 (plus a control box with a value). Ledger X commits after
+// every block, so the creation is in the tracker DB before the deletion is committed; twin ledger T
+// receives the same blocks but skips the one commit that would separate the two rounds, so creation
+// and deletion reach its tracker DB in one commit (for it the box never existed on disk). Same
+// blocks, same state: every catchpoint label both produce must be equal.
+func c15EqualStates(t *testing.T, c *kit.Ctx) {
+	n := c.N(3, 12)
+	for i := 0; i < n && c.Violations() < 5; i++ {
+		cr := c.Rand(15, 7000+uint64(i), 99)
+		cfg := hlConfig{
+			Proto:              []protocol.ConsensusVersion{hlProtoShort, hlProtoMid, hlProtoCurrentMid}[cr.Intn(3)],
+			MaxAcctLookback:    []uint64{1, 2, 4}[cr.Intn(3)],
+			Archival:           cr.Bool(),
+			OnDisk:             true,
+			Storage:            "sqlite",
+			NAccounts:          12,
+			NOnline:            4,
+			CatchpointInterval: 4,
+			CatchpointTracking: 1,
+			Profile:            "apps",
+		}
+		lb := cpLookback(config.Consensus[cfg.Proto])
+		L := basics.Round(cfg.MaxAcctLookback)
+		X := &c15Side{s: hlNewSim(t, c, c.Rand(15, 7000+uint64(i)), cfg), stages: map[basics.Round]trackerdb.CatchpointFirstStageInfo{}, labels: map[basics.Round]string{}}
+		X.s.g.weights["rekey"], X.s.g.weights["payclose"] = 0, 0
+		var chain []bookkeeping.Block
+		X.s.onBlock = append(X.s.onBlock, func(vb *ledgercore.ValidatedBlock) { chain = append(chain, vb.Block()) })
+		func() {
+			defer X.s.close()
+			for k, np := 0, cr.Range(0, 4); k < np; k++ {
+				X.s.step()
+				X.observe()
+			}
+			u := X.s.u
+			creator, payer := u.keyed[5], u.keyed[8]
+			approval, clear := hlPrograms()
+			if err := X.block([]*txntest.Txn{{Type: protocol.ApplicationCallTx, Sender: creator, ApprovalProgram: approval, ClearStateProgram: clear,
+				GlobalStateSchema: basics.StateSchema{NumUint: 1, NumByteSlice: 3}, LocalStateSchema: basics.StateSchema{NumUint: 1, NumByteSlice: 2}}}); err != nil {
+				c.Harness("equal-state case %d: app creation: %v", i, err)
+			}
+			var app basics.AppIndex
+			for idx, h := range X.s.m.creators {
+				if x, ok := h.at(X.s.m.latest); ok && x.ctype == basics.AppCreatable && x.addr == creator && h.lastChange(X.s.m.latest) == X.s.m.latest {
+					app = basics.AppIndex(idx)
+				}
+			}
+			if err := X.block([]*txntest.Txn{{Type: protocol.PaymentTx, Sender: payer, Receiver: app.Address(), Amount: 50_000_000}}); err != nil {
+				c.Harness("equal-state case %d: funding: %v", i, err)
+			}
+			// r must not be a round at which the background syncer commits on its own (first-stage and
+			// catchpoint rounds are multiples of 4 here), nor may r+1 follow such a boundary
+			for (X.s.m.latest+1)%4 != 1 && (X.s.m.latest+1)%4 != 2 {
+				X.s.emptyBlock()
+				X.observe()
+			}
+			box := func(op, nm string, arg []byte) []*txntest.Txn {
+				args := [][]byte{[]byte(op), []byte(nm)}
+				if arg != nil {
+					args = append(args, arg)
+				}
+				return []*txntest.Txn{{Type: protocol.ApplicationCallTx, Sender: payer, ApplicationID: app, ApplicationArgs: args, Boxes: []transactions.BoxRef{{Name: []byte(nm)}}}}
+			}
+			name := string(cr.Bytes(cr.Range(1, 12)))
+			if err := X.block(box("bcreate", name, u64(0)), box("bput", name+"-full", cr.Bytes(cr.Range(1, 9)))); err != nil {
+				c.Harness("equal-state case %d: box creation: %v", i, err)
+			}
+			r := X.s.m.latest
+			if err := X.block(box("bdel", name, nil), box("bdel", name+"-full", nil)); err != nil {
+				c.Harness("equal-state case %d: box deletion: %v", i, err)
+			}
+			target := (r + 1 + lb + 3) / 4 * 4
+			for X.s.m.latest < target+L+1 {
+				X.s.emptyBlock()
+				X.observe()
+			}
+			// twin T: same blocks, commits after every block except the one that would commit round r alone
+			lc := X.s.lcfg
+			T := &c15Side{s: cpTwin(X.s, c.Rand(15, 7000+uint64(i), 1), lc, "c15-t"), stages: map[basics.Round]trackerdb.CatchpointFirstStageInfo{}, labels: map[basics.Round]string{}}
+			defer T.s.close()
+			sawR := false
+			for _, blk := range chain {
+				if err := cpAddBlock(T.s, blk); err != nil {
+					c.Harness("equal-state case %d: twin rejects block %d: %v", i, blk.Round(), err)
+				}
+				if blk.Round() == r+L {
+					continue // no commit here: rounds r and r+1 go to the tracker DB together
+				}
+				T.observe()
+				if T.s.l.LatestTrackerCommitted() == r {
+					sawR = true
+				}
+			}
+			if sawR {
+				c.Count("c15e2e.twin_committed_between_create_and_delete", 1) // the background syncer did it on its own
+			} else {
+				c.Count("c15e2e.delete_committed_together_with_create", 1)
+			}
+			c.Count("c15e2e.delete_committed_after_create_was_persisted", 1)
+			for rnd, lx := range X.labels {
+				lt, ok := T.labels[rnd]
+				if !ok || rnd < r+1+lb {
+					continue
+				}
+				c.Eval(1)
+				c.Count("c15e2e.equal_state_labels_compared", 1)
+				c.Distinct(fmt.Sprintf("equal-state|%d|%d", len(name), cfg.MaxAcctLookback))
+				if lx != lt {
+					w := map[string]any{"case": i, "config": cfg.String(), "app": app, "box": fmt.Sprintf("%x", name), "created_in_round": r, "deleted_in_round": r + 1, "catchpoint_round": rnd,
+						"label_committing_after_every_block": lx, "label_committing_both_rounds_together": lt, "twin_committed_round_r_separately": sawR, "trace_X": X.s.traceTail(25), "trace_T": T.s.traceTail(25)}
+					if ix, ok := X.stages[rnd-lb]; ok {
+						w["X_commitments"] = cpStageStr(ix)
+					}
+					if it, ok := T.stages[rnd-lb]; ok {
+						w["T_commitments"] = cpStageStr(it)
+					}
+					c.Violation("equal-state-different-label:empty-box-deleted", w)
+				}
+			}
+		}()
+	}
+}
+
 func TestVerifC15E2E(t *testing.T) {
 	c := kit.Start(t, "C15", "e2e")
 	defer c.Finish()
-	c.Rule("pairs of real on-disk ledgers with catchpoint tracking run the same PRNG-generated prefix history (0–8 blocks; block hashes compared), the same scripted setup (HL application funded, asset created and opted into, global and local state written), then ONE block in which one transaction differs: box (name, value) vs the bytes moved across the name|value boundary by k bytes [expected collision], or a control difference: one box value byte, one box name byte, a payment amount (two account balances), an asset transfer amount (two holdings), the frozen bit of one holding, a global state value, a local state value; then empty blocks until both catchpoint trackers have written the first-stage commitments and labels for a balances round after the differing block; labels recomputed for X's block hash from each ledger's committed (trie root, totals, state-proof hash, online hashes) and compared; distinct = (class, name length, value length, shift) tuples")
+	c.Rule("pairs of real on-disk ledgers with catchpoint tracking run the same PRNG-generated prefix history (0–8 blocks; block hashes compared), the same scripted setup (HL application funded, asset created and opted into, global and local state written), then ONE block in which one transaction differs: box (name, value) vs the bytes moved across the name|value boundary by k bytes [expected collision], or a control difference: one box value byte, one box name byte, a payment amount (two account balances), an asset transfer amount (two holdings), the frozen bit of one holding, a global state value, a local state value, a persisted zero-length box deleted vs kept; then empty blocks until both catchpoint trackers have written the first-stage commitments and labels for a balances round after the differing block; labels recomputed for X's block hash from each ledger's committed (trie root, totals, state-proof hash, online hashes) and compared; distinct = (class, name length, value length, shift) tuples; plus equal-state cases: one chain creates a zero-length box in round r and deletes it in round r+1, ledger X commits after every block (creation persisted before the deletion is committed), a twin fed the same blocks commits both rounds together; their real labels must be equal")
 	c.Assume("the differing transaction changes the block hash, so the comparison holds the block hash fixed (X's); SHA-512/256 does not collide on the generated inputs")
 	hlRegisterProtos()
-	classes := []string{"boundary-shift", "box-value-byte", "asset-frozen-bit", "account-balance", "boundary-shift", "box-name-byte", "asset-holding", "global-state-value", "boundary-shift", "local-state-value", "boundary-shift", "asset-frozen-bit"}
-	n := c.N(12, 60)
+	classes := []string{"boundary-shift", "box-value-byte", "asset-frozen-bit", "account-balance", "boundary-shift", "box-name-byte", "asset-holding", "global-state-value", "boundary-shift", "local-state-value", "boundary-shift", "empty-box-deleted-vs-kept", "asset-frozen-bit"}
+	n := c.N(13, 65)
 	for i := 0; i < n && c.Violations() < 5; i++ {
 		class := classes[i%len(classes)]
 		cr := c.Rand(15, uint64(i), 99)
@@ -205,6 +329,7 @@ func TestVerifC15E2E(t *testing.T) {
 					[]*txntest.Txn{{Type: protocol.ApplicationCallTx, Sender: holder, ApplicationID: app, OnCompletion: transactions.OptInOC}},
 					[]*txntest.Txn{{Type: protocol.ApplicationCallTx, Sender: payer, ApplicationID: app, ApplicationArgs: [][]byte{[]byte("gput"), []byte("k0"), []byte("global-0")}}},
 					[]*txntest.Txn{{Type: protocol.ApplicationCallTx, Sender: payer, ApplicationID: app, ApplicationArgs: [][]byte{[]byte("bput"), []byte("other"), []byte("unrelated")}, Boxes: []transactions.BoxRef{{Name: []byte("other")}}}},
+					[]*txntest.Txn{{Type: protocol.ApplicationCallTx, Sender: payer, ApplicationID: app, ApplicationArgs: [][]byte{[]byte("bcreate"), []byte("emptyE"), u64(0)}, Boxes: []transactions.BoxRef{{Name: []byte("emptyE")}}}},
 				)
 			}) {
 				return
@@ -247,6 +372,13 @@ func TestVerifC15E2E(t *testing.T) {
 				gx = []*txntest.Txn{{Type: protocol.AssetTransferTx, Sender: assetCreator, XferAsset: asset, AssetReceiver: holder, AssetAmount: amt}}
 				gy = []*txntest.Txn{{Type: protocol.AssetTransferTx, Sender: assetCreator, XferAsset: asset, AssetReceiver: holder, AssetAmount: amt + 1}}
 				shape = fmt.Sprintf("amount%d", amt%7)
+			case "empty-box-deleted-vs-kept":
+				// X deletes the persisted zero-length box, Y's delete names a box that never existed (same fee, no effect)
+				del := func(nm string) []*txntest.Txn {
+					return []*txntest.Txn{{Type: protocol.ApplicationCallTx, Sender: payer, ApplicationID: app, ApplicationArgs: [][]byte{[]byte("bdel"), []byte(nm)}, Boxes: []transactions.BoxRef{{Name: []byte(nm)}}}}
+				}
+				gx, gy = del("emptyE"), del("never-existed")
+				shape = "empty"
 			case "asset-frozen-bit":
 				// exactly ONE holding differs: X freezes the holder's holding, Y's freeze transaction leaves it unfrozen
 				gx = []*txntest.Txn{{Type: protocol.AssetFreezeTx, Sender: assetCreator, FreezeAsset: asset, FreezeAccount: holder, AssetFrozen: true}}
@@ -338,4 +470,9 @@ func TestVerifC15E2E(t *testing.T) {
 	c.Require("c15e2e.distinguished.asset-holding", 1)
 	c.Require("c15e2e.distinguished.box-name-byte", 1)
 	c.Require("c15e2e.pairs.asset-frozen-bit", 1)
+	c.Require("c15e2e.distinguished.empty-box-deleted-vs-kept", 1)
+	c15EqualStates(t, c)
+	c.Require("c15e2e.equal_state_labels_compared", int64(c.N(2, 8)))
+	c.Require("c15e2e.delete_committed_after_create_was_persisted", int64(c.N(2, 8)))
+	c.Require("c15e2e.delete_committed_together_with_create", int64(c.N(2, 8)))
 }
